@@ -79,7 +79,8 @@ def build(top, ctx):
         late = None
         if node.get('late_attrs'):
             # the documented attributes assigned after construction
-            late, sk = sk, {}
+            # (the constructor gets other values, or none at all)
+            late, sk = sk, dict(node.get('ctor_attrs') or {})
         if node['cls'] == 'PureScheduler':
             assert is_top
             cls, jk = w.SimPureScheduler, {}
